@@ -243,11 +243,12 @@ def datavalue_order_users(ctx, prog, R):
             if not (direct or generic):
                 continue
             n += 1
-            ok = b.root in ORDER_USERS
+            place = prog.owner_root(b.root)      # a helper split off one of the places is still that place
+            ok = place in ORDER_USERS
             ctx.functions_analysed.add(b.name)
-            ctx.ob(R, f'{b.root}·orders-DataValues', ok,
-                   f'{b.name}: {c.fn} on {ga[:1]} at block {c.bb}' + (f' - {ORDER_USERS[b.root]}' if ok else ' - not a place where both operands are of one type by construction'),
+            ctx.ob(R, f'{place}·orders-DataValues', ok,
+                   f'{b.name}: {c.fn} on {ga[:1]} at block {c.bb}' + (f' - {ORDER_USERS[place]}' if ok else ' - not a place where both operands are of one type by construction'),
                    [site(b, c.bb)],
-                   what=f'{b.root} compares two DataValues with the derived (variant-first) order: for operands of different numeric types the answer '
+                   what=f'{place} compares two DataValues with the derived (variant-first) order: for operands of different numeric types the answer '
                         'is decided by the type tag, not by the numbers (`1 > 0.5` is false, `1 = cast(1 as bigint)` is false)')
     ctx.floor(R, n, 8, 'ordering comparisons of DataValues')
